@@ -373,8 +373,8 @@ def register(hub, prop="C14"):
     # ---- constructor --------------------------------------------------------
     def o_init(hub, call):
         dl = call.kwargs.get("dim_list")
-        if dl is None or not all(isinstance(d, fd.Dimension) for d in dl):
-            return
+        if not isinstance(dl, (list, tuple)) or not all(isinstance(d, fd.Dimension) for d in dl):
+            return  # other input forms (dictionaries, generators) are judged by the driver that makes them
         letters = [d.letter for d in dl]
         rec.event(M, sig=f"init|{letters}", cls="init|dup" if len(set(letters)) != len(letters) else "init|ok")
         if len(set(letters)) != len(letters):
